@@ -13,7 +13,6 @@ from heapq import heappop, heappush
 from itertools import chain
 
 from sqlglot import Dialect, expressions as exp
-from sqlglot.helper import seq_get
 
 if t.TYPE_CHECKING:
     from collections.abc import Iterator, Sequence
@@ -396,7 +395,7 @@ def _get_non_expression_leaves(expression: exp.Expr) -> Iterator[tuple[str, t.An
             value is None
             or value is False
             or isinstance(value, exp.Expr)
-            or (isinstance(value, list) and isinstance(seq_get(value, 0), exp.Expr))
+            or (isinstance(value, list) and (not value or isinstance(value[0], exp.Expr)))
         ):
             continue
 
